@@ -47,15 +47,20 @@ def prepare():
 def fixed_cases():
     """Bounded-exhaustive part: every word of length 3 (depth 3) and of length 2 (depth 2) over the 16-letter alphabet
     of engines/region_machine.py, in blocks of all words with a given first letter."""
-    return [{"mode": 63, "enum_depth": d, "enum_block": b} for d in (0, 1) for b in range(len(rm.LETTERS))]
+    n = len(rm.LETTERS)
+    return ([{"mode": 63, "enum_confirm": 1, "enum_depth": 0, "enum_block": b, "enum_second": 0} for b in range(n)] +
+            [{"mode": 63, "enum_confirm": 1, "enum_depth": 1, "enum_block": b, "enum_second": c} for b in range(n) for c in range(n)])
 
 
 def _enum_case(ch, out):
     depth = 2 + ch.draw("enum_depth", 2)
     first = rm.LETTERS[ch.draw("enum_block", len(rm.LETTERS))]
+    sec = rm.LETTERS[ch.draw("enum_second", len(rm.LETTERS))]
     n = 0
-    for second in rm.LETTERS:
-        for third in (rm.LETTERS if depth == 3 else ("",)):      # depth 3: words of length 3; depth 2: of length 2
+    # a fixed case = all words with a given first letter (depth 2, words of length 2) or with given first two letters
+    # (depth 3, words of length 3)
+    for second in (rm.LETTERS if depth == 2 else (sec,)):
+        for third in (rm.LETTERS if depth == 3 else ("",)):
             word = first + second + third
             rm.run_scripted(out, word, depth=depth)
             n += 1
@@ -64,14 +69,14 @@ def _enum_case(ch, out):
                 out.sample = {"enumerated_word": word, "depth": depth}
                 return out
     out.stats["enumerated_histories"] += n
-    out.sample = {"enumerated_block": first + "**", "depth": depth, "words": n}
-    out.feed("enum %s %d" % (first, depth))
+    out.sample = {"enumerated_block": (first + "*") if depth == 2 else (first + sec + "*"), "depth": depth, "words": n}
+    out.feed("enum %s%s %d" % (first, sec, depth))
     return out
 
 
 def case(ch):
     out = Outcome()
-    if ch.draw("mode", 64) == 63:
+    if ch.draw("mode", 64) == 63 and ch.draw("enum_confirm", 1000) == 1:     # fixed cases only (forced draws)
         return _enum_case(ch, out)
     rm.run_history(ch, out, min_depth=2, max_depth=10, export_weight=0)
     return out
